@@ -32,7 +32,8 @@ def extract_all(repo, out):
 
 
 def run_diff(diff, base):
-    name = os.path.relpath(diff, "/tmp/seed") if diff.startswith("/tmp/seed") else diff
+    diff = os.path.abspath(diff)
+    name = os.path.relpath(diff, "/tmp/seed") if diff.startswith("/tmp/seed") else os.path.relpath(diff, VERIF)
     work = tempfile.mkdtemp(prefix="benign-", dir="/var/tmp")
     try:
         subprocess.run(["rsync", "-a", "--exclude", "target", "--exclude", ".git", REPO + "/", work + "/repo/"], check=True)
